@@ -477,6 +477,103 @@ def _holds_everywhere(body, v, R):
     return not bad[0]
 
 
+def close_inductions(body, new):
+    """A NEW local p that is initialised before a counted loop and advanced by a loop-invariant step as the last statement of every iteration
+    (`p = E0; for v in [lo, hi): ...p...; p += step` -- the strength-reduced form of an index / a walking row pointer) has the closed form
+    E0 + step*(v - lo) inside the body: substitute it, drop the advance and the initialisation.  For a pointer `&A[e0]` the closed form is
+    `&A[e0 + step*(v - lo)]`.  Refused when p is read after the loop, assigned anywhere else, when an iteration can skip the advance (`continue`), or when
+    an operand of E0 / step is written in the loop."""
+    from .canon import poly_norm
+    from .ir import aug_rhs
+
+    def level_continue(stmts):
+        for t in stmts:
+            if t.k == 'continue':
+                return True
+            if t.k in ('for', 'foreach', 'while', 'loop'):
+                continue
+            if any(level_continue(b) for b in sub_blocks(t)):
+                return True
+        return False
+
+    def attempt(B):
+        for k, lp in enumerate(B):
+            for blk in sub_blocks(lp):
+                r = attempt(blk)
+                if r is not None:
+                    d = dict(lp.d)
+                    for attr in ('then', 'els', 'body', 'orelse', 'final'):
+                        if d.get(attr) is blk:
+                            d[attr] = r
+                    return B[:k] + [S(lp.k, lp.line, **d)] + B[k + 1:]
+            if lp.k != 'for' or lp.lo is None or lp.step not in (None, ('num', 1)) or lp.d.get('inclusive') or not lp.body:
+                continue
+            last = lp.body[-1]
+            if not (last.k == 'assign' and last.target[0] == 'var' and last.target[1] in new and last.d.get('aug') == '+'):
+                continue
+            p = last.target[1]
+            step = aug_rhs(last)
+            rest = lp.body[:-1]
+            if step is None or p in assigned_vars(rest) or level_continue(rest) or _uses([S('expr', 0, value=step)], p):
+                continue
+            # the initialisation: nearest preceding plain assignment to p in the same block; nothing in between mentions p
+            init = None
+            for j in range(k - 1, -1, -1):
+                t = B[j]
+                if (t.k == 'assign' and t.target == ('var', p) and t.d.get('aug') is None) or (t.k == 'decl' and t.name == p and t.init is not None):
+                    init = j
+                    break
+                if _uses([t], p) or p in assigned_vars([t]):
+                    break
+            if init is None:
+                continue
+            E0 = B[init].value if B[init].k == 'assign' else B[init].init
+            if _uses(B[k + 1:], p) and not any((t.k == 'assign' and t.target == ('var', p) and t.d.get('aug') is None) for t in B[k + 1:k + 2]):
+                continue
+            fv = _free_vars(E0) | _free_vars(step) | _free_vars(lp.lo)
+            written = assigned_vars(lp.body) | assigned_vars(B[init + 1:k])
+            stored = _writes(lp.body)[1] | _writes(B[init + 1:k])[1]
+            if (fv - {p}) & (written | {lp.var}) or (_array_bases(step) & stored) or (E0[0] != 'un' and (_array_bases(E0) & stored)):
+                continue
+            off = ('bin', '*', step, ('bin', '-', ('var', lp.var), lp.lo))
+            if E0[0] == 'un' and E0[1] == 'addr' and E0[2][0] == 'idx':
+                if _array_bases(E0[2][2]) & stored:
+                    continue
+                closed = ('un', 'addr', ('idx', E0[2][1], poly_norm(('bin', '+', E0[2][2], off))))
+            elif E0[0] == 'un':
+                continue
+            else:
+                closed = poly_norm(('bin', '+', E0, off))
+            sub = {p: closed}
+            nb = [map_stmt(t, lambda e: subst_vars(e, sub)) for t in rest]
+            d = dict(lp.d)
+            d['body'] = nb
+            out = B[:init] + B[init + 1:k] + [S('for', lp.line, **d)] + B[k + 1:]
+            return out
+        return None
+    for _ in range(8):
+        r = attempt(body)
+        if r is None:
+            break
+        body = r
+    # declarations of variables that no longer occur
+    gone = [t.name for t in walk_stmts(body) if t.k == 'decl' and t.init is None and t.name in new and not _uses(body, t.name) and t.name not in assigned_vars(body)]
+    if gone:
+        def strip(B):
+            out = []
+            for t in B:
+                if t.k == 'decl' and t.name in gone and t.init is None:
+                    continue
+                d = dict(t.d)
+                for attr in ('then', 'els', 'body', 'orelse', 'final'):
+                    if isinstance(d.get(attr), list):
+                        d[attr] = strip(d[attr])
+                out.append(S(t.k, t.line, **d))
+            return out
+        body = strip(body)
+    return body
+
+
 def absorb_new_locals(key, qual, params, body, max_rounds=16):
     """Greedy: among the new locals that can be absorbed, absorb the one after which the function aligns best with its baseline (and not worse than
     before), recover names again, repeat.  (`envelope = s2[a:b]; upper = max(envelope)`: absorbing `envelope` makes `upper = max(s2[a:b])` align with the
@@ -488,6 +585,9 @@ def absorb_new_locals(key, qual, params, body, max_rounds=16):
     lb = local_names(bbody, set(bparams))
     known = lb | set(bparams)
     pset = set(params)
+    new0 = {v for v in local_names(body, pset) if v not in known and '@' not in v}
+    if new0:
+        body = close_inductions(body, new0)
     for _ in range(max_rounds):
         new = {v for v in local_names(body, pset) if v not in known and '@' not in v}
         if not new:
@@ -563,7 +663,9 @@ def _absorb_one(body, new, params, only=None):
     for v in sorted(new):
         if only is not None and v != only:
             continue
-        if v in bad or v not in sites or v in mutated:
+        # ... except a C pointer into an array (`p = &A[e]`): p[k] IS A[e + k], stores through p are stores into A
+        alias = v in sites and all(R[0] == 'un' and R[1] == 'addr' and R[2][0] == 'idx' for _B, _i, R in sites[v])
+        if v in bad or v not in sites or (v in mutated and not alias):
             continue
         total = _uses(body, v)
         if total == 0:
@@ -585,7 +687,16 @@ def _absorb_one(body, new, params, only=None):
                 break
             n = _uses(rest, v)
             covered += n
-            if n and _disturbed(rest, v, _free_vars(R), _array_bases(R)):
+            if alias:
+                # the element stores into the addressed array are what the pointer is for; only its index operands (and the array variable itself) matter
+                base_ = R[2][1]
+                while base_[0] in ('idx', 'attr'):
+                    base_ = base_[1]
+                bn = base_[1] if base_[0] == 'var' else None
+                if n and (bn is None or bn in _writes(rest)[0] or _disturbed(rest, v, _free_vars(R) - {bn}, _array_bases(R[2][2]))):
+                    ok = False
+                    break
+            elif n and _disturbed(rest, v, _free_vars(R), _array_bases(R)):
                 ok = False
                 break
         if not ok or covered != total:
